@@ -39,6 +39,31 @@ pub fn run(args: &[String]) {
             let _ = fh::parameters(512);
         }
         Some("c02time") => super::c02::diag_time(),
+        Some("keygen-scan") => {
+            // first NTRU candidate of key generation for seeds LE64(i): extreme coefficients
+            use rand::SeedableRng;
+            use rayon::prelude::*;
+            let n: usize = args[1].parse().unwrap();
+            let from: u64 = args[2].parse().unwrap();
+            let to: u64 = args[3].parse().unwrap();
+            let rows: Vec<String> = (from..to)
+                .into_par_iter()
+                .map(|i| {
+                    let mut rng = rand::rngs::StdRng::from_seed(crate::util::seed_bytes(i));
+                    let r = crate::ctx::catch(move || falcon_rust::math::ntru_gen(n, &mut rng));
+                    match r {
+                        Ok((f, g, cf, cg)) => {
+                            let mm = |p: &falcon_rust::polynomial::Polynomial<i16>| (p.coefficients.iter().min().copied().unwrap(), p.coefficients.iter().max().copied().unwrap());
+                            format!("{} f={:?} g={:?} F={:?} G={:?}", i, mm(&f), mm(&g), mm(&cf), mm(&cg))
+                        }
+                        Err(e) => format!("{} panic {}", i, e),
+                    }
+                })
+                .collect();
+            for r in rows {
+                println!("{}", r);
+            }
+        }
         _ => println!("diag gso"),
     }
 }
